@@ -13,6 +13,7 @@ open CertHash (Bytes Collision u64be u64be_inj u64be_length mid_cancel toUInt8_i
 
 variable (H : Bytes → Bytes)
 
+/- VACUITY AUDIT: no longer an obligation of the check. its conclusion has a bare disjunct `Collision H` (some two byte strings collide), which the fixed-output-length hypothesis alone already proves: trivially true, the acceptance hypothesis is never used at the intended instance SHA-256 (Vacuity.C04.C04_collision_disjunct_trivial). Replaced by: Vacuity.C04.C04_cert_single_segment_at. -/
 /-- master statement: two certificates whose ten hashed segments agree outside position `i` and whose
 hashes are equal agree at position `i` too, or the hash collides -/
 theorem C04_cert_single_segment (c c' : Cert) (i : Nat)
@@ -26,30 +27,35 @@ theorem C04_cert_single_segment (c c' : Cert) (i : Nat)
 macro "agree_outside" : tactic =>
   `(tactic| (intro j hj; rcases j with _|_|_|_|_|_|_|_|_|_|j <;> first | rfl | exact absurd rfl hj | simp [certSegs]))
 
+/- VACUITY AUDIT: no longer an obligation of the check. its conclusion has a bare disjunct `Collision H` (some two byte strings collide), which the fixed-output-length hypothesis alone already proves: trivially true, the acceptance hypothesis is never used at the intended instance SHA-256 (Vacuity.C04.C04_collision_disjunct_trivial). Replaced by: Vacuity.C04.C04_field_previous_hash_at. -/
 theorem C04_field_previous_hash (c : Cert) (p' : Bytes)
     (hh : certHash H c = certHash H { c with previousHash := p' }) : c.previousHash = p' ∨ Collision H := by
   rcases C04_cert_single_segment H c { c with previousHash := p' } 0 (by agree_outside) hh with h | h
   · left; simpa [certSegs] using h
   · exact Or.inr h
 
+/- VACUITY AUDIT: no longer an obligation of the check. its conclusion has a bare disjunct `Collision H` (some two byte strings collide), which the fixed-output-length hypothesis alone already proves: trivially true, the acceptance hypothesis is never used at the intended instance SHA-256 (Vacuity.C04.C04_collision_disjunct_trivial). Replaced by: Vacuity.C04.C04_field_epoch_at. -/
 theorem C04_field_epoch (c : Cert) (e' : Nat) (he : c.epoch < 2^64) (he' : e' < 2^64)
     (hh : certHash H c = certHash H { c with epoch := e' }) : c.epoch = e' ∨ Collision H := by
   rcases C04_cert_single_segment H c { c with epoch := e' } 1 (by agree_outside) hh with h | h
   · left; exact u64be_inj he he' (by simpa [certSegs] using h)
   · exact Or.inr h
 
+/- VACUITY AUDIT: no longer an obligation of the check. its conclusion has a bare disjunct `Collision H` (some two byte strings collide), which the fixed-output-length hypothesis alone already proves: trivially true, the acceptance hypothesis is never used at the intended instance SHA-256 (Vacuity.C04.C04_collision_disjunct_trivial). Replaced by: Vacuity.C04.C04_field_signed_message_at. -/
 theorem C04_field_signed_message (c : Cert) (m' : Bytes)
     (hh : certHash H c = certHash H { c with signedMessage := m' }) : c.signedMessage = m' ∨ Collision H := by
   rcases C04_cert_single_segment H c { c with signedMessage := m' } 4 (by agree_outside) hh with h | h
   · left; simpa [certSegs] using h
   · exact Or.inr h
 
+/- VACUITY AUDIT: no longer an obligation of the check. its conclusion has a bare disjunct `Collision H` (some two byte strings collide), which the fixed-output-length hypothesis alone already proves: trivially true, the acceptance hypothesis is never used at the intended instance SHA-256 (Vacuity.C04.C04_collision_disjunct_trivial). Replaced by: Vacuity.C04.C04_field_avk_at. -/
 theorem C04_field_avk (c : Cert) (a' : Bytes)
     (hh : certHash H c = certHash H { c with avkHex := a' }) : c.avkHex = a' ∨ Collision H := by
   rcases C04_cert_single_segment H c { c with avkHex := a' } 5 (by agree_outside) hh with h | h
   · left; simpa [certSegs] using h
   · exact Or.inr h
 
+/- VACUITY AUDIT: no longer an obligation of the check. its conclusion has a bare disjunct `Collision H` (some two byte strings collide), which the fixed-output-length hypothesis alone already proves: trivially true, the acceptance hypothesis is never used at the intended instance SHA-256 (Vacuity.C04.C04_collision_disjunct_trivial). Replaced by: Vacuity.C04.C04_field_signature_at. -/
 theorem C04_field_signature (c : Cert) (s' : Bytes)
     (hh : certHash H c = certHash H { c with sigHex := s' }) : c.sigHex = s' ∨ Collision H := by
   rcases C04_cert_single_segment H c { c with sigHex := s' } 7 (by agree_outside) hh with h | h
@@ -70,6 +76,7 @@ theorem C04_field_ancillary_verifier (c : Cert) (a a' : Bytes) (hc : c.ancVerifi
   · left; simpa [certSegs, hc, optB] using h
   · exact Or.inr h
 
+/- VACUITY AUDIT: no longer an obligation of the check. its conclusion has a bare disjunct `Collision H` (some two byte strings collide), which the fixed-output-length hypothesis alone already proves: trivially true, the acceptance hypothesis is never used at the intended instance SHA-256 (Vacuity.C04.C04_collision_disjunct_trivial). Replaced by: Vacuity.C04.C04_field_metadata_at. -/
 /-- metadata as a whole: equal certificate hashes force equal metadata pre-images -/
 theorem C04_field_metadata (c : Cert) (m' : Meta)
     (hh : certHash H c = certHash H { c with metadata := m' }) :
@@ -111,6 +118,7 @@ theorem C04_meta_sealed_at (m : Meta) (t' : Int)
   have := C04_meta_single_segment H m { m with sealedNs := t' } 4 rfl (by agree_meta) hflat
   exact i64be_inj h1 h2 (by simpa [metaSegs] using this)
 
+/- VACUITY AUDIT: no longer an obligation of the check. its conclusion has a bare disjunct `Collision H` (some two byte strings collide), which the fixed-output-length hypothesis alone already proves: trivially true, the acceptance hypothesis is never used at the intended instance SHA-256 (Vacuity.C04.C04_collision_disjunct_trivial). Replaced by: Vacuity.C04.C04_params_at. -/
 /-- protocol parameters, compared at the protocol's fixed-point precision (U8F24 pattern) -/
 theorem C04_params (p p' : Params) (hk : p.k < 2^64) (hk' : p'.k < 2^64) (hm : p.m < 2^64) (hm' : p'.m < 2^64)
     (hf : PhiOk p.phi) (hf' : PhiOk p'.phi)
@@ -134,6 +142,7 @@ theorem C04_meta_params (m : Meta) (p' : Params)
   have := C04_meta_single_segment H m { m with params := p' } 2 rfl (by agree_meta) hflat
   exact C04_params H _ _ hb.1 hb'.1 hb.2.1 hb'.2.1 hb.2.2 hb'.2.2 (by simpa [metaSegs] using this)
 
+/- VACUITY AUDIT: no longer an obligation of the check. its conclusion has a bare disjunct `Collision H` (some two byte strings collide), which the fixed-output-length hypothesis alone already proves: trivially true, the acceptance hypothesis is never used at the intended instance SHA-256 (Vacuity.C04.C04_collision_disjunct_trivial). Replaced by: Vacuity.C04.C04_party_at. -/
 /-- one signer of the list (id or stake) changed -/
 theorem C04_party (p p' : Party) (hs : p.stake < 2^64) (hs' : p'.stake < 2^64)
     (hh : partyHash H p = partyHash H p') : p = p' ∨ Collision H := by
@@ -173,6 +182,7 @@ theorem pmSegs_length (pm : List (Bytes × Bytes)) : (pmSegs pm).length = 2 * pm
   | nil => rfl
   | cons a r ih => simp [pmSegs] at ih ⊢; omega
 
+/- VACUITY AUDIT: no longer an obligation of the check. its conclusion has a bare disjunct `Collision H` (some two byte strings collide), which the fixed-output-length hypothesis alone already proves: trivially true, the acceptance hypothesis is never used at the intended instance SHA-256 (Vacuity.C04.C04_collision_disjunct_trivial). Replaced by: Vacuity.C04.C04_pm_single_value_at. -/
 /-- protocol message: with the same keys, one changed value is detected -/
 theorem C04_pm_single_value (pm pm' : List (Bytes × Bytes)) (i : Nat) (hl : pm.length = pm'.length)
     (hagree : ∀ j, j ≠ i → (pmSegs pm)[j]? = (pmSegs pm')[j]?)
@@ -181,6 +191,7 @@ theorem C04_pm_single_value (pm pm' : List (Bytes × Bytes)) (i : Nat) (hl : pm.
   · exact Or.inl (segs_single _ _ i (by rw [pmSegs_length, pmSegs_length, hl]) hagree hp)
   · exact Or.inr hc
 
+/- VACUITY AUDIT: no longer an obligation of the check. its conclusion has a bare disjunct `Collision H` (some two byte strings collide), which the fixed-output-length hypothesis alone already proves: trivially true, the acceptance hypothesis is never used at the intended instance SHA-256 (Vacuity.C04.C04_collision_disjunct_trivial). Replaced by: Vacuity.C04.C04_pm_digest_injective_at. -/
 /-- **two protocol messages built from well-formed part values have the same digest only if they are
 equal** (second sentence of the property): the digest pre-image `k₁v₁…kₙvₙ` (no separators) parses uniquely
 when the keys come from the table of twelve part names and the values are over `[0-9a-f]*` (hex digests,
